@@ -5,10 +5,22 @@ import (
 )
 
 func init() {
-	register(&Rule{ID: "R03.2", Title: "queue capacities: Joe's operation channels unbuffered, reply channels buffered", Floor: 7, Run: r03_2})
+	register(&Rule{ID: "R03.2", Title: "Joe's operation channels (message, subscription, unsubscription) are unbuffered", Floor: 3, Run: r03_2})
+	register(&Rule{ID: "R03.9", Title: "reply channels (subscription.done, publishedMessage.replayerErr) are buffered", Floor: 2, Run: r03_9})
 }
 
 func r03_2(c *Ctx) {
+	for _, f := range []string{"message", "subscription", "unsubscription"} {
+		chanCapacity(c, "Joe", f, true)
+	}
+}
+
+func r03_9(c *Ctx) {
+	chanCapacity(c, "subscription", "done", false)
+	chanCapacity(c, "publishedMessage", "replayerErr", false)
+}
+
+func chanCapacity(c *Ctx, owner, field string, wantZero bool) {
 	P := c.P
 	chk := func(owner, field string, wantZero bool) {
 		n := 0
@@ -43,11 +55,7 @@ func r03_2(c *Ctx) {
 			c.undecided("make("+owner+"."+field+")", "-", "no store to "+owner+"."+field+" found")
 		}
 	}
-	for _, f := range []string{"message", "subscription", "unsubscription", "done", "closed"} {
-		chk("Joe", f, true)
-	}
-	chk("subscription", "done", false)
-	chk("publishedMessage", "replayerErr", false)
+	chk(owner, field, wantZero)
 }
 
 func stripConvAll(v ssa.Value) ssa.Value {
